@@ -82,7 +82,9 @@ def classify(spec, exp, got, d):
         return "merge/reverse-tie-order"
     if tool == "iter_sentinel" and "identical_at" in spec["params"] and spec.get("raw"):
         return "iter_sentinel/identity-shortcut"
-    if tool == "accumulate" and spec["params"].get("initial") == ["none"]:
+    if tool == "accumulate" and spec["params"].get("initial") == ["none"] and ev is not None and ev[0] == "yield" \
+            and tuple(ev[1]) == ("v", "NoneType", None) and not any(e[0] == "pull" for e in got[:d]):
+        # exactly the recorded mechanism: a None is yielded before the first pull
         return "accumulate/initial-none"
     if ev is not None and ev[0] in ("pull", "end") and (d >= len(exp) or exp[d][0] not in ("pull", "end")):
         return f"{tool}/reads-ahead"
@@ -93,7 +95,38 @@ def run_case(case, stats: Counter):
     if case.get("kind") == "groupby":
         from . import C16
         stats["runs_groupby"] += 1
-        return C16.run_case(case["gb"], stats)
+        res = C16.run_case(case["gb"], stats)
+        gb = case["gb"]
+        if gb["key"] is not None and not res["violations"]:
+            # a key that fails once, with a consumer that catches the error and carries on: itertools drops the item
+            # whose key could not be computed; every later pull, key call and yield must stay in step
+            from ..probes import Injected
+            from ..tools import Fault
+            base = C16.gb_side(gb, True)
+            ncalls = base["fn"].uses if base["fn"] is not None else 0
+            for k in sorted({1, max(1, ncalls // 2), ncalls}) if ncalls else ():
+                ref = C16.gb_side(gb, True, Fault("fn", 0, k, Injected("key"), "call"), cont=True)
+                fnfl = "async_def" if gb["key"].startswith("a") else "def"
+                got = C16.gb_side(gb, False, Fault("fn", 0, k, Injected("key"), "await" if fnfl == "async_def" else "call"),
+                                  fnfl=fnfl, cont=True)
+                stats["groupby_failing_key_runs"] += 1
+                head = f"groupby keys={gb['keys']} key={gb['key']} flav={gb['flav']} ops={gb['ops']} key fails at call {k}, consumer carries on"
+                if ref["results"] != got["results"]:
+                    d = next((i for i, (a, b) in enumerate(zip(ref["results"], got["results"])) if a != b),
+                             min(len(ref["results"]), len(got["results"])))
+                    res["violations"].append({"key": "groupby/after-failed-key",
+                                              "msg": f"{head}: first difference at op {d}: itertools "
+                                                     f"{ref['results'][d:d + 2]} vs asyncstdlib {got['results'][d:d + 2]}"[:900]})
+                    break
+                if gb["flav"] != "list":
+                    lr, _ = drop_stdlib_repolls(ref["log"], got["log"])
+                    if lr != got["log"]:
+                        d = next((i for i, (a, b) in enumerate(zip(lr, got["log"])) if a != b), min(len(lr), len(got["log"])))
+                        res["violations"].append({"key": "groupby/after-failed-key",
+                                                  "msg": f"{head}: event logs differ at {d}: itertools {lr[max(0, d - 3):d + 2]} "
+                                                         f"vs asyncstdlib {got['log'][max(0, d - 3):d + 2]}"[:900]})
+                        break
+        return res
     spec = case["spec"]
     tool = spec["tool"]
     flav = list(case["flav"])[:len(spec["srcs"])] or ["async_class"]
